@@ -291,7 +291,7 @@ fn case(rng: &mut Rng, pools: &mut Pools, rep: &mut Report, case_no: u64) {
     // ---- ordinary systems: every dispatch epoch exactly once, epochs never overtake ----
     if problems.is_empty() && dispatched > 0 {
         let mut f = Vec::new();
-        let opts = EOpts { expect_tl: false, caller_thread: caller, outer_mode: "async", top_mult: dispatched as usize , partial: false};
+        let opts = EOpts { expect_tl: false, caller_thread: caller, outer_mode: "async", top_mult: dispatched as usize , partial: false, tl_mult: None};
         let st = e_oracle(&strip_tl(&plan), &evs, &opts, &mut f);
         rep.metric("windows", st.windows as i64);
         for x in f {
